@@ -15,20 +15,37 @@ Definition run_net_f (fuel : nat) (c : runcase) : res (list callrec) :=
 Lemma run_net_is_run_net_f : forall c, run_net c = run_net_f net_fuel c.
 Proof. reflexivity. Qed.
 
+(* does a component contain a counting loop (also inside the tasks it calls)? *)
+Fixpoint has_count (s : xstmt) : bool :=
+  match s with
+  | XCount _ _ _ => true
+  | XCall _ _ _ b => existsb has_count b
+  | XParallel bs => existsb has_count bs
+  | XCond _ P F => existsb has_count P || existsb has_count F
+  | XWhile _ B => existsb has_count B
+  | _ => false
+  end.
+Definition no_count (body : list xstmt) : bool := negb (existsb has_count body).
+
 (* the fragment: test identifiers, an engine that neither reacts from inside notifications nor
    completes services immediately nor mutates parameter lists; ANY script of API calls (start,
    completion, junk events, registration of further functions, attaching / detaching observers);
    programs whose unfolding consists of services, task calls (non-empty bodies), Parallel
    statements, Conditions (non-empty Passed block, with or without a Failed block) and While
-   loops (non-empty bodies), arbitrarily nested, within the generator's recursion budget.
-   Not in the fragment: counting loops, parallel loops *)
+   loops (non-empty bodies), arbitrarily nested, within the generator's recursion budget; and
+   sequential counting loops (non-empty bodies, any limit) that stand in the production task
+   itself (at any depth of Conditions / While loops / counting loops, but not inside a called
+   task), provided that no parameter list of the program mentions a loop index
+   ([Abs.sok]: with [NC] = "the program has no counting loop" nothing is required of the
+   parameters).  Not in the fragment: counting loops inside called tasks, loop indices in
+   parameters of programs with counting loops, parallel loops *)
 Definition in_fragment (c : runcase) : bool :=
   rc_test_ids c
   && forallb (fun o => match o with None => true | Some _ => false end) (rc_react c)
   && Nat.eqb (rc_mutate c) 0
   && forallb negb (rc_imm c)
   && match unfold_program (p_tasks (rc_prog c)) 200 with
-     | Ok body => frag_block body && Nat.ltb (need_l body) 200
+     | Ok body => frag_block body && Nat.ltb (need_l body) 200 && sok_block (no_count body) true body
      | _ => false
      end.
 
@@ -65,7 +82,7 @@ Proof.
   rename H into Hprog, H0 into Himm, H1 into Hmut, H2 into Hreact.
   assert (Hscript : forallb ok_call (rc_script c) = true) by (apply forallb_forall; intros [] _; reflexivity).
   destruct (unfold_program (p_tasks (rc_prog c)) 200) as [body| | |] eqn:Hu; try discriminate Hprog.
-  apply andb_prop in Hprog. destruct Hprog as [Hfrag Hneed]. apply Nat.ltb_lt in Hneed.
+  apply andb_prop in Hprog. destruct Hprog as [Hprog Hsok]. apply andb_prop in Hprog. destruct Hprog as [Hfrag Hneed]. apply Nat.ltb_lt in Hneed.
   unfold run_ref in Href. rewrite (no_react_existsb _ Hreact), Hu in Href. cbn [rbind] in Href.
   destruct (net_init_spec (p_tasks (rc_prog c)) 200 body Hu Hfrag Hneed) as (N & Hinit & HN).
   assert (Henv : env_quiet (env_of c)).
@@ -74,8 +91,8 @@ Proof.
     - intro k. unfold env_of, ec_react. apply nth_all_none. exact Hreact.
     - unfold env_of, ec_mutate. apply Nat.eqb_eq. exact Hmut. }
   assert (Himm' : forall k, imm_of (rc_imm c) k = false) by (intro k; apply nth_all_false; exact Himm).
-  destruct (script_sim (p_tasks (rc_prog c)) (env_of c) Henv (orc_of (rc_vals c)) (imm_of (rc_imm c)) Himm' eq_refl
-                       body N HN Hfrag default_fuel (rc_script c) sched0 N tr Hscript
-                       (Rel_init body N HN) Href) as [f0 Hf0].
+  destruct (script_sim (no_count body) (p_tasks (rc_prog c)) (env_of c) Henv (orc_of (rc_vals c)) (imm_of (rc_imm c)) Himm' eq_refl
+                       body N HN Hfrag Hsok default_fuel (rc_script c) sched0 N tr Hscript
+                       (Rel_init (no_count body) body N HN) Href) as [f0 Hf0].
   exists f0. intros f Hf. unfold run_net_f. rewrite Hin, Hinit. cbn [rbind]. apply Hf0. exact Hf.
 Qed.
